@@ -90,7 +90,15 @@ class Contract:
         for dd in self.raises_by_case.values():
             for d in dd.values():
                 texts += list(d.values())
+        for lc in (self.loops or {}).values():
+            texts += list(lc.get("invariant", {}).values())
+            for d in lc.get("invariant_by_case", {}).values():
+                texts += list(d.values())
+        seen_t = set()
         for t in texts:
+            if t in seen_t:
+                continue
+            seen_t.add(t)
             try:
                 tree = ast.parse(t, mode="eval")
             except SyntaxError as e:
